@@ -395,5 +395,7 @@ func ensureEnumTaggedBody(p *synth.Project) {
 	p.Enums = append(p.Enums, synth.Enum{Name: "Flavor", Pkg: st.Pkg, Base: "string", Values: []synth.EnumConst{
 		{Name: "FlavorRnD", Lit: `"R&D"`, Text: "R&D"}, {Name: "FlavorAngle", Lit: `"a<b>c"`, Text: "a<b>c"}, {Name: "FlavorQuote", Lit: `"it's"`, Text: "it's"}, {Name: "FlavorPlain", Lit: `"plain"`, Text: "plain"}}})
 	st.Fields = append(st.Fields, synth.Field{GoName: "Flavor", Type: synth.Named(st.Pkg, "Flavor"), JSONName: "flavor"})
+	// two independently validated fields: a request may violate both at once
+	st.Fields = append(st.Fields, synth.Field{GoName: "Vmin", Type: synth.Prim("string"), JSONName: "vmin", Validate: "min=3"}, synth.Field{GoName: "Vsmall", Type: synth.Prim("int"), JSONName: "vsmall", Validate: "lte=10"})
 	p.SetFeature("body-model-with-awkward-string-enum")
 }
